@@ -250,6 +250,12 @@ def c05_cases(ctx, bases, rnd):
     for body in (le32(len(lblk)) + lblk + [0, 0, 0, 0], le32(len(lblk)) + lblk + [0, 0, 0, 0] + le32(len(lblk)) + lblk, [0, 0, 0, 0] + le32(len(lblk)) + lblk):
         for cfg in ({"conc": 1, "mode": "read", "bufs": [4096]}, {"conc": 1, "mode": "writeto"}, {"conc": 4, "mode": "read", "bufs": [4096]}, {"conc": 4, "mode": "writeto"}):
             cases.append({"id": len(cases) + 1, "chunks": [{"bytes": LEGACY_MAGIC + body}], "ops": [], "cfg": cfg, "tag": {"base": -1, "mut": "legacy-zero-word"}})
+    # a legacy frame whose second block has a match reaching into the first one (legacy blocks are independent)
+    b1 = [0xF0, 15] + [ord("a") + k % 26 for k in range(30)]
+    b2 = [0x14, ord("x"), 10, 0, 0x50] + [ord(ch) for ch in "tail!"]
+    for cfg in ({"conc": 1, "mode": "read", "bufs": [4096]}, {"conc": 1, "mode": "writeto"}, {"conc": 4, "mode": "read", "bufs": [4096]}, {"conc": 4, "mode": "writeto"}):
+        cases.append({"id": len(cases) + 1, "chunks": [{"bytes": LEGACY_MAGIC + le32(len(b1)) + b1 + le32(len(b2)) + b2}], "ops": [], "cfg": cfg,
+                      "tag": {"base": -1, "mut": "legacy-linked-match"}})
     # splices between two frames of different options
     for _ in range(30 if q else 300):
         x, y = rnd.sample(bases, 2)
@@ -434,6 +440,8 @@ def key_of(prop, c, rec):
         st = rec.get("ref", {}).get("status")
         if rec.get("ref", {}).get("legacy") and st == "block_too_big" and rec["outcome"] == "clean":
             return "C05:legacy:size-word-with-high-bit-read-as-stored-block"
+        if rec.get("ref", {}).get("legacy") and st == "bad_block" and rec["outcome"] == "clean" and rec.get("ref", {}).get("linkedok"):
+            return "C05:legacy:match-into-previous-block-accepted"
         blks = rec.get("ref", {}).get("blocks") or [{}]
         if rec.get("ref", {}).get("legacy") and st == "bad_block" and rec["outcome"] == "clean" and blks[-1].get("size") == 0:
             return "C05:legacy:zero-size-word-read-as-empty-block-or-end"
